@@ -1,6 +1,7 @@
 //! mc-fault: serves C02 C06 (one module per property).
 use mc_core::Ctx;
 
+mod common;
 mod c02;
 mod c06;
 
